@@ -409,10 +409,19 @@ func (p *partition) Subscribe(ctx context.Context, req *client.SubscribeRequest)
 		return nil, st
 	}
 
-	if stopOffset != waitForNewMessages && stopOffset < startOffset {
-		return nil, status.New(
-			codes.InvalidArgument, fmt.Sprintf("Stop offset is before start offset: %d < %d",
-				stopOffset, startOffset))
+	if stopOffset != waitForNewMessages {
+		// The stop offset must not lie before the start offset in the
+		// direction of the subscription.
+		if !req.Reverse && stopOffset < startOffset {
+			return nil, status.New(
+				codes.InvalidArgument, fmt.Sprintf("Stop offset is before start offset: %d < %d",
+					stopOffset, startOffset))
+		}
+		if req.Reverse && stopOffset > startOffset {
+			return nil, status.New(
+				codes.InvalidArgument, fmt.Sprintf("Stop offset is before start offset: %d > %d",
+					stopOffset, startOffset))
+		}
 	}
 
 	// Cancel previous group subscriber if there was one.
@@ -504,6 +513,19 @@ func (p *partition) newSubscribeLoop(ctx context.Context, groupID, consumerID st
 				}
 				return
 			}
+			// The message lies beyond the stop offset, i.e. the stop offset
+			// itself is no longer in the log (it was compacted or trimmed
+			// away). The requested range ends before this message.
+			if stopOffset != waitForNewMessages &&
+				((!reverse && offset > stopOffset) || (reverse && offset < stopOffset)) {
+				s := status.New(codes.ResourceExhausted, "Stop offset reached")
+				select {
+				case errCh <- s:
+				case <-cancel:
+				}
+				return
+			}
+
 			msgValue := m.Value()
 
 			headers := m.Headers()
